@@ -122,20 +122,25 @@ def clTokens (h : Header) : List Bytes := (index h kCL).flatMap fun ls => split 
 
 def teLast (h : Header) : Bytes := trimSpace ((split ((index h kTE).getLastD []) comma).getLastD [])
 
+/-- The Content-Length part: `none` = mismatch error; else the header with the agreed value set. -/
+def framingCL (h : Header) : Option Header :=
+  if (index h kCL).length > 0 then
+    match clScan (clTokens h) [] with
+    | none => none
+    | some len => some (set h kCL len)
+  else some h
+
+/-- The Transfer-Encoding part. -/
+def framingTE (h1 : Header) : Header × Option Err :=
+  if (index h1 kTE).length > 0 then
+    if teLast h1 != chunked then (h1, some .te)
+    else (del h1 kCL, none)
+  else (h1, none)
+
 def framingHeader (h : Header) : Header × Option Err :=
-  let r : Option Header :=
-    if (index h kCL).length > 0 then
-      match clScan (clTokens h) [] with
-      | none => none
-      | some len => some (set h kCL len)
-    else some h
-  match r with
+  match framingCL h with
   | none => (h, some .cl)
-  | some h1 =>
-    if (index h1 kTE).length > 0 then
-      if teLast h1 != chunked then (h1, some .te)
-      else (del h1 kCL, none)
-    else (h1, none)
+  | some h1 => framingTE h1
 
 def framingReq : ReqMod := fun _ s =>
   let (h, e) := framingHeader s.hdr
